@@ -143,8 +143,8 @@ DISABLED_PLACEMENTS = ['none', 'first', 'middle', 'last', 'adjacent']
 def repr_program(namer, repr_, pattern, placement, n=4, payload=False, generic=False, k0=0):
     signed = (repr_ or 'usize').startswith('i')
     bits = {'8': 8, '16': 16, '32': 32, '64': 64}.get((repr_ or 'usize')[1:], 64)
-    if repr_ is None:
-        bits = 63      # the enum's own discriminant type is isize while from_repr takes usize
+    if repr_ is None or repr_ in ('usize', 'isize'):
+        bits = 31 if repr_ != 'isize' else 32   # Verus: "discriminant does not fit in 32-bits when usize is used" (tool limit)
     if placement == 'none':
         dis = []
     elif placement == 'first':
